@@ -62,6 +62,12 @@ def compute_string_set_hash(values: set[str]) -> int:
     return hash(tuple(sorted(s.lower() for s in values)))
 
 
+def _storable(text: str) -> str:
+    """Make a source string storable: lone surrogates (e.g. the literal "\\ud800") cannot be
+    encoded as UTF-8 by SQLite, so they are kept as backslash escapes."""
+    return text.encode("utf-8", "backslashreplace").decode("utf-8")
+
+
 def _is_ready_for_analysis(context: BaseLintContext, storage: StringlyTypedStorage | None) -> bool:
     """Check if context and storage are ready for analysis."""
     return bool(context.file_path and context.file_content and storage)
@@ -82,9 +88,9 @@ def _convert_to_stored_pattern(result: AnalysisResult) -> StoredPattern:
         column=result.column,
         variable_name=result.variable_name,
         string_set_hash=compute_string_set_hash(result.string_values),
-        string_values=sorted(result.string_values),
+        string_values=sorted(_storable(v) for v in result.string_values),
         pattern_type=result.pattern_type,
-        details=result.details,
+        details=_storable(result.details),
     )
 
 
@@ -103,7 +109,7 @@ def _convert_to_stored_function_call(result: FunctionCallResult) -> StoredFuncti
         column=result.column,
         function_name=result.function_name,
         param_index=result.param_index,
-        string_value=result.string_value,
+        string_value=_storable(result.string_value),
     )
 
 
@@ -121,7 +127,7 @@ def _convert_to_stored_comparison(result: ComparisonResult) -> StoredComparison:
         line_number=result.line_number,
         column=result.column,
         variable_name=result.variable_name,
-        compared_value=result.compared_value,
+        compared_value=_storable(result.compared_value),
         operator=result.operator,
     )
 
